@@ -206,12 +206,43 @@ def generate(ctx, n, size, mode="natural"):
                     for c in m["strategies"][2:]:
                         if (c["bs"], c["rt"]) == (a["bs"], a["rt"]):
                             c["rt"] += 5
+                    # strategies of a profile stay pairwise different as (batch size, runtime, ordered resource entries):
+                    # the adapter recognises the strategy of a returned BatchStrategy (a copy) by exactly this content
+                    keys = [(x["bs"], x["rt"], tuple(map(tuple, x["res"]))) for x in m["strategies"]]
+                    assert len(set(keys)) == len(keys), keys
             for t in h["tasks"]:
                 t["deadline"] = (t["deadline"] // 20) * 20 + 10
         elif mode == "load":
             h["run_load"] = True
     out = core.run_impl("clockwork.py", {"histories": hs})["histories"]
     return hs, out
+
+
+def corpus(prefix="seed_"):
+    """histories kept in corpus/C15 (failing inputs of earlier mutation trials, witnesses of findings)"""
+    import glob
+    import json
+    import os
+    out = []
+    for f in sorted(glob.glob(os.path.join(core.ROOT, "corpus", "C15", prefix + "*.json"))):
+        h = json.load(open(f))
+        h["file"] = os.path.basename(f)
+        out.append(h)
+    return out
+
+
+def run_corpus(ctx, stream="S-cw-corpus"):
+    hs = corpus()
+    if not hs:
+        return
+    impls = core.run_impl("clockwork.py", {"histories": hs})["histories"]
+    getters_monitor(ctx, hs, impls, stream + ":getters")
+    strip(hs, impls)
+    try:
+        correspondence(ctx, hs, impls, stream)
+    except core.ModelEvalError as e:
+        ctx.broken.append({"kind": "correspondence", "name": stream, "detail": str(e)[-600:]})
+    monitors(ctx, hs, impls, stream, once=True)
 
 
 def stats(ctx, hs, impls):
@@ -414,6 +445,7 @@ def run(ctx):
     dist_all = {}
     for mode, n in plan:
         hs, impls = generate(ctx, n, size, mode)
+        strip(hs, impls)
         nt, dist = stats(ctx, hs, impls)
         ctx.cov["distinct_nontrivial"] += nt
         dist_all[mode] = dist
@@ -426,4 +458,5 @@ def run(ctx):
             ctx.broken.append({"kind": "correspondence", "name": stream, "detail": str(e)[-600:]})
         monitors(ctx, hs, impls, stream, once=(mode != "adversarial"))
     ctx.cov["input_distribution"] = dist_all
+    run_corpus(ctx)
     return built
